@@ -22,7 +22,7 @@ def viol(root):
                         s.add(("ANALYSIS-ERROR", rr.rule))
                     for o in rr.obs:
                         if not o.ok:
-                            s.add((o.rule, f"{o.file}::{o.function}"))
+                            s.add((o.rule if not o.undecided else 'UNDECIDED:' + o.rule, f"{o.file}::{o.function}"))
         except AnalysisError as e:
             s.add(("ANALYSIS-ERROR", str(e)[:80]))
         out[pid] = s
